@@ -125,6 +125,10 @@ pub struct Profile {
     pub trigger_pm: u64,
     /// per-mille of clients whose client id contains a topic metacharacter (must be refused)
     pub bad_id_pm: u64,
+    /// per-mille of publishes that carry MQTT 5 properties
+    pub props_pm: u64,
+    /// per-mille of publishes sent through a publisher-side topic alias
+    pub pub_alias_pm: u64,
 }
 
 #[derive(Clone, Debug)]
@@ -199,6 +203,8 @@ pub fn base_profile(name: &'static str) -> Profile {
         burst_pm: 100,
         trigger_pm: 150,
         bad_id_pm: 0,
+        props_pm: 120,
+        pub_alias_pm: 80,
     }
 }
 
@@ -226,6 +232,8 @@ struct Actor {
     guarded: bool,
     qos2_unreleased: VecDeque<u16>,
     publishes: u64,
+    /// topic aliases this client has established on its current connection
+    out_aliases: BTreeMap<String, u16>,
 }
 
 pub struct History {
@@ -256,6 +264,8 @@ pub struct History {
     pub verbose: bool,
     /// counts everything observable a router step produced (events handled, notifications handed out)
     progress: u64,
+    /// slab slot of connections the router has registered but whose CONNACK the link has not collected yet
+    slot_hint: BTreeMap<usize, usize>,
 }
 
 fn qos_of(n: u8) -> QoS {
@@ -333,6 +343,7 @@ impl History {
             router_counters: Value::Null,
             verbose: false,
             progress: 0,
+            slot_hint: BTreeMap::new(),
         }
     }
 
@@ -424,7 +435,7 @@ impl History {
     fn occupant(&self, link: usize) -> Option<usize> {
         // the live link that currently owns the slab slot this (possibly stale) link was given
         let id = self.s4.links[link].conn_id?;
-        (0..self.s4.links.len()).find(|l| self.s4.links[*l].conn_id == Some(id) && self.model.is_live(*l))
+        (0..self.s4.links.len()).find(|l| (self.s4.links[*l].conn_id == Some(id) || self.slot_hint.get(l) == Some(&id)) && self.model.is_live(*l))
     }
 
     fn sync(&mut self, out: StepOut, kind: Step) {
@@ -483,10 +494,23 @@ impl History {
                     self.model.ev_disconnect(*l);
                 }
                 ShadowEv::PublishWill(c) => self.model.ev_will(c),
-                ShadowEv::Raw { id, .. } => {
-                    let known = self.s4.links.iter().enumerate().any(|(l, x)| x.conn_id == Some(*id) && self.model.is_live(l));
-                    last_id_state = if known { "live" } else { "unknown" };
-                    self.model.ev_other();
+                ShadowEv::Raw { id, kind } => {
+                    // an event fabricated for an id nobody owned when it was sent acts on whoever owns the slot now
+                    let owner = (0..self.s4.links.len()).find(|l| (self.s4.links[*l].conn_id == Some(*id) || self.slot_hint.get(l) == Some(id)) && self.model.is_live(*l));
+                    last_id_state = if owner.is_some() { "live" } else { "unknown" };
+                    match (kind.as_str(), owner) {
+                        ("DeviceData", Some(target)) => {
+                            let batch = self.s4.take_shadow_in(target);
+                            self.model.ev_device_data(target, &batch);
+                            self.corner("stale-event-delivered");
+                        }
+                        ("Disconnect", Some(victim)) => {
+                            self.stale_disconnect_targets.insert(victim);
+                            self.corner("stale-event-delivered");
+                            self.model.ev_other();
+                        }
+                        _ => self.model.ev_other(),
+                    }
                 }
             }
         }
@@ -517,7 +541,7 @@ impl History {
                 ConnectOutcome::Rejected { link } => {
                     // a connect the router registered and then lost again before answering is a close, not a refusal
                     let r = if self.model.is_live(link) && self.stale_disconnect_targets.contains(&link) {
-                        self.model.observe_closed(link, "stale-disconnect-before-connack")
+                        self.model.observe_closed(link, "stale-disconnect")
                     } else {
                         self.model.connect_outcome(link, false)
                     };
@@ -539,9 +563,15 @@ impl History {
             let map: BTreeMap<&str, usize> = snap.connection_map.iter().map(|(k, v)| (k.as_str(), *v)).collect();
             for l in 0..self.model.conns.len() {
                 if self.model.conns[l].state != ConnState::Live {
+                    self.slot_hint.remove(&l);
                     continue;
                 }
                 let client = self.model.conns[l].client.clone();
+                if self.s4.links[l].conn_id.is_none() {
+                    if let Some(id) = map.get(client.as_str()) {
+                        self.slot_hint.insert(l, *id);
+                    }
+                }
                 let present = match (map.get(client.as_str()), self.s4.links[l].conn_id) {
                     (Some(id), Some(mine)) => *id == mine,
                     (Some(_), None) => true,
@@ -714,6 +744,7 @@ impl History {
         act.poisoned = false;
         act.next_pkid = 1;
         act.qos2_unreleased.clear();
+        act.out_aliases.clear();
         act.pushed_unnotified = false;
         if clean {
             act.held.clear();
@@ -758,7 +789,10 @@ impl History {
         self.msg_counter += 1;
         let payload = if empty { String::new() } else { format!("{}:{}", self.actors[a].name, self.msg_counter) };
         let pkid = if qos > 0 { self.pkid(a) } else { 0 };
-        let p = mk_publish(false, qos, pkid, retain, topic.as_bytes(), payload.as_bytes());
+        // a topic alias that this connection has used before stands for the topic: send it empty (half of the time)
+        let alias_known = props.as_ref().and_then(|p| p.topic_alias).map(|al| self.actors[a].out_aliases.values().any(|v| *v == al) && self.model.conns[link].aliases_in.contains_key(&al)).unwrap_or(false);
+        let wire_topic: &[u8] = if alias_known && self.rng.chance(1, 2) { b"" } else { topic.as_bytes() };
+        let p = mk_publish(false, qos, pkid, retain, wire_topic, payload.as_bytes());
         if qos == 2 {
             self.actors[a].qos2_unreleased.push_back(pkid);
         }
@@ -831,8 +865,11 @@ impl History {
                 },
                 None,
             ),
-            true,
+            false,
         );
+        self.push_trailing(link);
+        self.s4.notify(link);
+        self.actors[a].pushed_unnotified = false;
         self.actors[a].poisoned = true;
         self.op("disconnect-packet", 9);
         self.log(format!("DISCONNECT {}", self.actors[a].name));
@@ -1001,14 +1038,52 @@ impl History {
             }
         }
         self.s4.push(link, packet);
-        self.s4.notify(link);
         if closes {
-            // packets after an offending one have no defined effect: it is always the last of its batch
+            // what follows an offending packet in the same batch has no defined effect on *this* connection
+            // (the model stops there) - but it must never reach anybody else
+            self.push_trailing(link);
             self.actors[a].poisoned = true;
         }
+        self.s4.notify(link);
         self.op("bad-packet", 21 + k as u8);
         self.log(format!("{name} sends {desc}"));
         true
+    }
+
+    /// Requests queued behind a packet that ends the connection: distinctive packet ids and `U:` payloads
+    fn push_trailing(&mut self, link: usize) {
+        if !self.rng.chance(2, 3) {
+            return;
+        }
+        let n = self.rng.range(1, 3);
+        for i in 0..n {
+            let p = match self.rng.below(4) {
+                0 => Packet::PingReq(PingReq),
+                1 => Packet::Subscribe(
+                    Subscribe {
+                        pkid: 6000 + i as u16,
+                        filters: vec![Filter {
+                            path: "zz/trailing".into(),
+                            qos: QoS::AtLeastOnce,
+                            nolocal: false,
+                            preserve_retain: false,
+                            retain_forward_rule: RetainForwardRule::Never,
+                        }],
+                    },
+                    None,
+                ),
+                2 => Packet::Publish(mk_publish(false, 1, 6100 + i as u16, false, b"a/b", b"U:trailing"), None),
+                _ => Packet::Unsubscribe(
+                    Unsubscribe {
+                        pkid: 6200 + i as u16,
+                        filters: vec!["zz/none".into()],
+                    },
+                    None,
+                ),
+            };
+            self.s4.push(link, p);
+        }
+        self.corner("packets-behind-fatal-packet");
     }
 
     fn raw_event(&mut self) -> bool {
@@ -1036,6 +1111,10 @@ impl History {
             return false;
         }
         if k == 0 && !self.triggers.stale_ready {
+            return false;
+        }
+        if k == 2 && !self.triggers.stale_disconnect {
+            // a Disconnect for a free slot hits whoever is given that slot before it is handled (KF-06)
             return false;
         }
         self.s4.raw(id, ev, kind);
@@ -1070,8 +1149,18 @@ impl History {
                 if recycled && !self.triggers.stale_disconnect {
                     return false;
                 }
+                // without the trigger no connect may be pending either: it could be given the slot before the event is handled
+                if !self.triggers.stale_disconnect && self.s4.pending_events().any(|e| matches!(e, ShadowEv::Connect(_))) {
+                    return false;
+                }
                 self.s4.disconnect_ev(l);
                 self.log(format!("stale Disconnect from ended link {l} (slot recycled: {recycled})"));
+                if !self.triggers.stale_disconnect {
+                    // ... and it is handled before anything else can happen to the slot
+                    while self.s4.queued() > 0 && !self.done() {
+                        self.step(Step::Event);
+                    }
+                }
             }
             _ => {
                 let c = self.s4.links[l].client_id.clone();
@@ -1121,7 +1210,8 @@ impl History {
                     }
                     self.corner("burst");
                 } else {
-                    self.publish(a, &topic, qos, retain, empty, None, notify_now);
+                    let props = self.random_props(a, &topic);
+                    self.publish(a, &topic, qos, retain, empty, props, notify_now);
                 }
             }
             1 => self.random_subscribe(a, notify_now),
@@ -1217,6 +1307,32 @@ impl History {
         }
     }
 
+    /// MQTT 5 properties for a publish: payload/user properties, and now and then a topic alias
+    /// (first use establishes it together with the topic, later uses send an empty topic)
+    fn random_props(&mut self, a: usize, topic: &str) -> Option<PublishProperties> {
+        let mut p = PublishProperties::default();
+        let mut any = false;
+        if self.rng.below(1000) < self.profile.props_pm {
+            any = true;
+            match self.rng.below(4) {
+                0 => p.user_properties = vec![("k".into(), format!("v{}", self.msg_counter))],
+                1 => p.content_type = Some("text/plain".into()),
+                2 => {
+                    p.response_topic = Some("resp/t".into());
+                    p.correlation_data = Some(Bytes::from_static(b"corr"));
+                }
+                _ => p.payload_format_indicator = Some(1),
+            }
+        }
+        if self.rng.below(1000) < self.profile.pub_alias_pm && !self.actors[a].guarded {
+            any = true;
+            let next = self.actors[a].out_aliases.len() as u16 + 1;
+            let alias = *self.actors[a].out_aliases.entry(topic.to_owned()).or_insert(next);
+            p.topic_alias = Some(alias);
+        }
+        any.then_some(p)
+    }
+
     fn pick_topic(&mut self) -> String {
         if self.triggers.multibyte_topic && self.rng.chance(1, 5) {
             return (*self.rng.pick(&["é/x", "€", "ü/b"])).to_owned();
@@ -1247,7 +1363,8 @@ impl History {
                 continue;
             }
             if let Some(old) = self.actors[a].held.get(&path) {
-                if *old != qos && !self.triggers.resub_other_qos {
+                // the well-behaved pair never pulls a known-finding trigger
+                if *old != qos && (!self.triggers.resub_other_qos || self.actors[a].guarded) {
                     qos = *old;
                 }
             }
@@ -1257,7 +1374,9 @@ impl History {
             // attribution must stay decidable: overlapping subscriptions of one client either carry
             // distinct subscription identifiers (one per SUBSCRIBE packet) or differ in QoS
             let in_packet = fs.iter().any(|(p, q)| *q == qos && overlap(p, &path));
-            let with_held = !self.actors[a].uses_sub_ids && self.actors[a].held.iter().any(|(p, q)| p != &path && *q == qos && overlap(p, &path));
+            // (a resumed session loses its subscription identifiers, so persistent clients rely on QoS alone)
+            let ids_reliable = self.actors[a].uses_sub_ids && !self.actors[a].persistent && !self.actors[a].resumed;
+            let with_held = !ids_reliable && self.actors[a].held.iter().any(|(p, q)| p != &path && *q == qos && overlap(p, &path));
             if in_packet || with_held {
                 continue;
             }
@@ -1281,9 +1400,10 @@ impl History {
         // a subscribe still sitting in the batch counts as held only once the router has seen it
         let held: Vec<String> = held.into_iter().filter(|p| self.model.holds(&self.actors[a].name, p) || self.s4.links[link].shadow_in.iter().any(|x| matches!(x, Packet::Subscribe(s, _) if s.filters.iter().any(|f| &f.path == p)))).collect();
         let mut fs = vec![];
-        if self.triggers.unsub_not_held && self.rng.chance(1, 3) {
+        let guarded = self.actors[a].guarded;
+        if self.triggers.unsub_not_held && !guarded && self.rng.chance(1, 3) {
             fs.push("never/subscribed".to_owned());
-        } else if self.triggers.unsub_multi && held.len() >= 2 && self.rng.chance(1, 2) {
+        } else if self.triggers.unsub_multi && !guarded && held.len() >= 2 && self.rng.chance(1, 2) {
             fs.push(held[0].clone());
             fs.push(held[1].clone());
         } else if !held.is_empty() {
